@@ -770,6 +770,10 @@ func cmdCheck(prop string, args []string) {
 		// property the scenario serves); attribute to the checked property if the
 		// scenario serves it, with the panic site as signature
 		cp := crashProperty[p.Scenario]
+		if prop == "C18" && p.Scenario == "wire" && (strings.Contains(p.Violation.Signature, "Compressor") || strings.Contains(p.Violation.Signature, "lz4.") || strings.Contains(p.Violation.Signature, "snappy.")) {
+			// a compressor that crashes the process while a frame is built or read
+			cp = "C18"
+		}
 		if cp == "" {
 			infra = append(infra, fmt.Sprintf("%s run %d crashed: %s", p.Scenario, p.Index, firstLine(p.Violation.Message)))
 			continue
